@@ -21,15 +21,15 @@ func init() {
 	register("C10", "other", []string{
 		"decides: one CommandFn call site in the package, in Dispatch, outside any loop, calling the final node's function with (ctx, a fresh view whose both fields are the final node, remaining); the parse cursor moves at exactly one site, on a fresh plain token equal to a command name of the cursor's own table, to that command's node; finalNode is written only by Parse from the parser's result; options are shared with children by pointer",
 		"'deepest command' is decided as 'the last cursor move wins'; user functions themselves are out of scope",
-	}, rC10Call, rC10Descent, rC10FinalNode, rC10CopyOptions, typestateRule("R10.6"))
+	}, rC10Call, rC10Descent, rC10FinalNode, rC10CopyOptions, typestateRule("R10.6"), exactStopsRule("R10.7"))
 	register("C11", "other", []string{
 		"decides: Dispatch: help test, then the required gate, then (and only on its nil edge) the CommandFn call; Parse: root gate under Parent == nil and not-help before any success return; the gate visits every option of the node and wraps ErrorParsing with %w; CheckRequired evaluated exhaustively over (IsRequired, Called); help edges write helpOutput to Writer and return ErrorHelpCalled without reaching the user function",
 		"help text content is C18",
-	}, rC11DispatchOrder, rC11Gate, rC11ParseGate, rC11HelpEdges, rC11CheckRequired)
+	}, rC11DispatchOrder, rC11Gate, rC11ParseGate, rC11HelpEdges, rC11CheckRequired, func(w *World, r *Report) { subRule(w, r, rC10CopyOptions, "R11.7", "the help option and its aliases reach every command level because HelpCommand copies the options to all children after defining them (same obligations as C10 R10.5)", 3) })
 	register("C12", "other", []string{
 		"decides: os.Getenv is called only by the GetEnv modifier (variable name) and by Parse (two constants); no Getenv with a non-constant name and no ModifyFn call is reachable from Parse / Dispatch, ModifyFn values are invoked only inside the definers after the default was stored: the environment is applied at definition time, any command-line Save comes later; GetEnv handles the seven scalar kinds, saves the variable's text verbatim (bools: only the lower-cased literals true/false), does nothing for an empty value and marks the option called with the variable's name",
 		"Called after an *invalid* int/float text is an observation, not decided (the value stays default because Save stores nothing on its error path, C01 R01.5)",
-	}, rC12GetenvCallers, rC12Reachability, definersRule("R12.3"), rC12GetEnvBody)
+	}, rC12GetenvCallers, rC12Reachability, definersRule("R12.3"), rC12GetEnvBody, func(w *World, r *Report) { subRule(w, r, rC01TypedStore, "R12.5", "text valid for the type: the Save used by GetEnv stores exactly the strconv conversion and nothing on its error path (same obligations as C01 R01.4)", 8) }, func(w *World, r *Report) { subRule(w, r, rC01ErrDiscipline, "R12.6", "conversion errors never store (same obligations as C01 R01.5)", 10) })
 }
 
 // ------------------------------------------------------------------ C10
@@ -128,8 +128,51 @@ func rC10Call(w *World, r *Report) {
 	} else {
 		ru.OK("Dispatch/call-count", w.Pos(fn.Pos()), "one call site")
 	}
-	// no function: no user call, an error or help
+	// when the selected command has a function nothing but help / the required gate may return before it is called
 	ig := buildIG(fn)
+	if d := dispatchCall(fn); d != nil {
+		var fnTest *ssa.If
+		for _, b := range fn.Blocks {
+			if iff, ok := b.Instrs[len(b.Instrs)-1].(*ssa.If); ok {
+				for _, f := range condFacts(iff.Cond, true, iff) {
+					if f.Y != nil && isNilConst(f.Y) {
+						if _, ok := loadOfFieldNamed(f.X, "CommandFn"); ok && b.Dominates(d.Block()) {
+							fnTest = iff
+						}
+					}
+				}
+			}
+		}
+		help := helpTest(fn)
+		if fnTest == nil {
+			ru.Bad("Dispatch/direct", w.IPos(d), "no CommandFn != nil test dominates the call")
+		} else {
+			seen := ig.reachFromE([]int{0}, func(in ssa.Instruction) bool { return in == ssa.Instruction(fnTest) }, func(term ssa.Instruction, k int) bool {
+				if t, ok := term.(*ssa.If); ok {
+					if help != nil && t == help && k == helpEdge(help) {
+						return false
+					}
+					// the required gate's error edge
+					for _, f := range condFacts(t.Cond, k == 0, t) {
+						if f.Op == token.NEQ && f.Y != nil && isNilConst(f.Y) {
+							if c, ok := f.X.(*ssa.Call); ok && c.Call.StaticCallee() != nil && w.PkgOfFn(c.Call.StaticCallee()) != nil {
+								return false
+							}
+						}
+					}
+				}
+				return true
+			})
+			early := false
+			for i, sn := range seen {
+				if _, ok := ig.instrs[i].(*ssa.Return); ok && sn {
+					early = true
+				}
+			}
+			ru.Check(!early, "Dispatch/direct", w.IPos(fnTest), "apart from help and a missing required option nothing returns before the command's function is looked at", "Dispatch can return (e.g. print a landing help) although the selected command has a function: the function would not run")
+		}
+	}
+	// no function: no user call, an error or help
 	for _, b := range fn.Blocks {
 		if len(b.Instrs) == 0 {
 			continue
@@ -307,6 +350,18 @@ func rC10CopyOptions(w *World, r *Report) {
 	})
 	if n == 0 {
 		ru.Bad("copy/same-record", w.Pos(fn.Pos()), "no copy into the children's tables")
+	}
+	// the only ways a child is skipped: it is the help command, or it opted out itself through UnsetOptions
+	if f := w.Field("getoptions", "programTree", "skipOptionsCopy"); f != nil {
+		for _, u := range w.fieldUses(f) {
+			if u.Kind != "write" {
+				continue
+			}
+			st := u.Instr.(*ssa.Store)
+			c, isC := st.Val.(*ssa.Const)
+			ok := short(u.Fn) == "(*getoptions.GetOpt).UnsetOptions" && isC && c.Value != nil && c.Value.String() == "true"
+			ru.Check(ok, "skip-flag/writer/"+short(u.Fn), w.IPos(st), "set only by UnsetOptions on the wrapper itself", "the opt-out from option inheritance spreads to other nodes: their commands lose the options of their ancestors")
+		}
 	}
 	rec := len(callsTo(fn, "getoptions.copyOptionsFromParent")) > 0
 	ru.Check(rec, "copy/recursive", w.Pos(fn.Pos()), "recurses into the children", "grand-children do not inherit")
@@ -941,6 +996,17 @@ func rC11CheckRequired(w *World, r *Report) {
 				ru.OK(key, w.Pos(fn.Pos()), fmt.Sprintf("returns %s", map[bool]string{true: "a wrapped error", false: "nil"}[want]))
 			}
 		}
+	}
+	// no user supplied text is used as a format string
+	for _, c := range callsTo(fn, "fmt.Errorf") {
+		p := NewProv(w, fn).Slice(c.Common().Args[0])
+		bad := false
+		for _, s := range p.Srcs {
+			if s.Kind == "field" {
+				bad = true
+			}
+		}
+		ru.Check(!bad, "CheckRequired/format", w.IPos(c), "format built from constants / text package variables", "the custom required message is used as a printf format: a '%' in it garbles the message")
 	}
 	// custom message arm uses IsRequiredErr
 	uses := false
